@@ -212,6 +212,44 @@ def case_pluto(mon, jde):
 
 
 _PRIOR = {"n": 0}
+_EDGE = {"n": 0, "busy": False}
+
+
+def refusal_edge(mon, q, e, inc, node, argp, T, jde_refused):
+    """Bisects between a refused epoch and perihelion (always accepted) for
+    the edge of the near-parabolic series' convergence and runs the usual
+    case at a few instants just inside it."""
+    from pymeeus.Epoch import Epoch
+    from pymeeus.Minor import Minor
+    from pymeeus.Angle import Angle
+    m = Minor(q, e, Angle(inc), Angle(node), Angle(argp), Epoch(T))
+
+    def accepted(j):
+        try:
+            m.geocentric_position(Epoch(j))
+            return True
+        except ValueError:
+            return False
+        except Exception:
+            return True
+    bad, good = jde_refused, Epoch(T).jde()
+    if not accepted(good):
+        return
+    for _ in range(40):
+        mid = 0.5 * (bad + good)
+        if accepted(mid):
+            good = mid
+        else:
+            bad = mid
+        if abs(good - bad) < 2e-5:
+            break
+    sgn = 1.0 if good > bad else -1.0
+    for d in (0.0, 1e-4, 1e-3, 3e-3, 6e-3, 0.02):
+        j = good + sgn * d
+        mon.begin("minor", [q, e, inc, node, argp, T, j])
+        mon.cls("minor-at-the-edge-of-series-convergence",
+                ("edge", q, e, T, j), [q, e, T, j])
+        case_minor(mon, q, e, inc, node, argp, T, j)
 
 
 def case_minor(mon, q, e, inc, node, argp, T, jde):
@@ -239,6 +277,15 @@ def case_minor(mon, q, e, inc, node, argp, T, jde):
         if "No convergence" in str(ex) and 0.98 <= e < 1.0:
             mon.refusal("near-parabolic:No convergence")
             mon.hit("near-parabolic-refused")
+            if _EDGE["n"] < 12 and not _EDGE["busy"]:
+                # the last instants the series still accepts, next to this
+                # refusal: answers there are judged like any other
+                _EDGE["n"] += 1
+                _EDGE["busy"] = True
+                try:
+                    refusal_edge(mon, q, e, inc, node, argp, T, jde)
+                finally:
+                    _EDGE["busy"] = False
             return
         mon.dev("minor.direction", dict(case, raised=repr(ex)))
         return
